@@ -232,9 +232,10 @@ class ReadSetReader:
         variants = dict()
         skip = set()
         for read in group:
-            if read.is_supplementary and read.is_reverse != primary.is_reverse:
-                continue
-            if primary.distance(read) > distance_threshold:
+            if read.is_supplementary and (
+                read.is_reverse != primary.is_reverse
+                or primary.distance(read) > distance_threshold
+            ):
                 continue
             reference_start = min(reference_start, read.reference_start)
             for variant in read.read:
